@@ -33,8 +33,8 @@ func (d epDef) LexBytes(filename string, b []byte) (lexer.Lexer, error) {
 	return d.inner.LexString(filename, string(b))
 }
 
-func TestVerif_C15_EntryPoints(t *testing.T) {
-	res := &xResult{Check: "entry points", Property: "C15", Exhaustive: false,
+func TestVerif_C15C18_EntryPoints(t *testing.T) {
+	res := &xResult{Check: "entry points", Property: "C15 C18", Exhaustive: false,
 		Bound: "3 lexer definitions (stateful, text/scanner, one offering Lex / LexString / LexBytes) x {no mapper, Upper + Unquote mappers} x 9 inputs (valid, lexing error, parse error, leading byte order mark, empty) x 8 entry points (ParseString, ParseBytes, Parse from strings.Reader, one-byte reader, data-with-EOF reader, section reader, ParseFromLexer over the parser's own lexer, Trace on)",
 		Rule: "(definition, mappers, input) triples; all non-trivial"}
 	stateful := lexer.MustSimple([]lexer.SimpleRule{{Name: "Ident", Pattern: `[a-zA-Z_]\w*`}, {Name: "Int", Pattern: `\d+`}, {Name: "String", Pattern: `"(\\.|[^"\\])*"`},
